@@ -336,13 +336,14 @@ Theorem C03_merge_group_length : forall N circular rules key group res0,
 Proof. exact merge_group_length. Qed.
 Print Assumptions C03_merge_group_length.
 
-(* clusters that do not overlap the cutoff-extended core of their predecessor in the sorted order are never
+(* clusters that do not overlap the cutoff-extended core of their predecessor in the sorted order - on a circular
+   record, where the second pass compares all pairs: of ANY cluster before them in the sorted order - are never
    changed: the result is the sorted group itself, a permutation of the input, every rule, core and neighbourhood
    as it was *)
 Theorem C03_merge_unchanged : forall N circular rules key group,
   let sorted := sort_by (fun a b => key a <? key b) group in
-  (forall l1 prev prev_loc cl loc0 l2, sorted = l1 ++ (prev, prev_loc) :: (cl, loc0) :: l2 ->
-     overlap (p_core cl) prev_loc = false) ->
+  (forall l1 prev prev_loc l2 cl loc0 l3, sorted = l1 ++ (prev, prev_loc) :: l2 ++ (cl, loc0) :: l3 ->
+     circular = true \/ l2 = [] -> overlap (p_core cl) prev_loc = false) ->
   merge_group N circular rules key group = Ok (map fst sorted) /\
   Permutation (map fst group) (map fst sorted).
 Proof. exact merge_group_unchanged. Qed.
@@ -443,36 +444,75 @@ Proof.
 Qed.
 
 (* ====================================================================================
-   Third pass: clauses that are false of the code as it is (recorded findings C03-K7, C03-K8)
+   Third pass: two clauses that were false of the code and hold of the repaired code (findings C03-K7, C03-K8,
+   status fixed), one that is still false (C03-K9)
    ==================================================================================== *)
 
 (* "the protoclusters reported for a rule are the maximal groups ... (also across the origin of a circular record)"
-   needs the rule's anchoring genes to be found across the origin.  False (finding C03-K8 anchor_window_full_record):
-   on a circular record of 4000 bases with cutoff 2000 the genes [100:200) (p0) and [3800:3900) (p1), 300 apart over
-   the origin, are no anchoring genes of "p0 and p1" (apply_cluster_rules, as the code is), although they are under
-   the specification anchors_spec (every rule evaluated over the whole record with the ring distance) and although
-   the same genes on a record 101 bases longer are.  The cutoff window of a gene covers the whole record, so
-   _extend_area_location returns one part and circular_origin stays 0. *)
-Theorem C03_anchor_window_refuted : exists N gs hs rules,
-  apply_cluster_rules N true gs hs rules true = Ok [] /\
-  anchors_spec N true gs hs rules = Ok [(0, [0; 1])] /\
-  apply_cluster_rules (N + 101) true [(0, [mkPart 100 200 1]); (1, [mkPart 3901 4001 1])] hs rules true = Ok [(0, [0; 1])].
-Proof. exact anchor_window_refuted. Qed.
-Print Assumptions C03_anchor_window_refuted.
+   needs the rule's anchoring genes to be found across the origin.  Repaired finding C03-K8 anchor_window_full_record:
+   circular_origin, the wrap point of the distance test of the rule conditions (Details.in_range), is the record
+   length for every gene and every cutoff on a circular record and 0 on a linear one - it no longer depends on the
+   cutoff window having two parts (a window covering the whole record has one) *)
+Theorem C03_anchor_window_origin : forall N circular gs g cutoff i,
+  gene_info N circular gs g cutoff = Ok i -> snd i = if circular then N else 0.
+Proof. exact gene_info_origin. Qed.
+Print Assumptions C03_anchor_window_origin.
 
-(* "maximal groups": two protoclusters of one rule never have cores closer than the cutoff.  False on a circular
-   record (finding C03-K7 merge_scan_adjacent_only): the pipeline returns two protoclusters of the same rule whose
-   cores share a gene, because merge_over_origin compares every cluster only with its predecessor in the order of the
-   starts of the cutoff-extended cores, in which the first and the last cluster of the record come first and the
-   second-to-last one last. *)
-Theorem C03_merge_scan_adjacent_refuted : exists N gs hs rules protos p q,
-  pipeline N true gs hs rules true = Ok protos /\ In p protos /\ In q protos /\ p <> q /\
-  p_rule p = p_rule q /\ overlap (p_core p) (p_core q) = true.
-Proof. exact merge_scan_adjacent_refuted. Qed.
-Print Assumptions C03_merge_scan_adjacent_refuted.
+(* ... and the witness of the finding (regression): on a circular record of 4000 bases with cutoff 2000 the genes
+   [100:200) (p0) and [3800:3900) (p1), 300 apart over the origin, ARE the anchoring genes of "p0 and p1"
+   (apply_cluster_rules, as the code is now), as they are under the specification anchors_spec (every rule evaluated
+   over the whole record with the ring distance) and on a record 101 bases longer; the pipeline reports the
+   protocluster over the origin *)
+Theorem C03_anchor_window_repaired :
+  let gs := [(0, [mkPart 100 200 1]); (1, [mkPart 3800 3900 1])] in
+  let hs := [(0, [(0, 0)]); (1, [(1, 0)])] in
+  let rules := [mkRule 2000 0 (C01.Model.Group false [C01.Model.IAnd [C01.Model.Single false 0; C01.Model.Single false 1]]) None []] in
+  apply_cluster_rules 4000 true gs hs rules true = Ok [(0, [0; 1])] /\
+  anchors_spec 4000 true gs hs rules = Ok [(0, [0; 1])] /\
+  apply_cluster_rules 4101 true [(0, [mkPart 100 200 1]); (1, [mkPart 3901 4001 1])] hs rules true = Ok [(0, [0; 1])] /\
+  pipeline 4000 true gs hs rules true = Ok [(0, span2 4000 3800 200, span2 4000 3800 200)].
+Proof. exact anchor_window_repaired. Qed.
+Print Assumptions C03_anchor_window_repaired.
 
-(* the witness of C03_merge_scan_adjacent_refuted read from an origin 3000 bases further on: one protocluster for
-   the four genes near each other (and one for the lone gene), i.e. the defect depends on where the origin lies *)
+(* "maximal groups": two protoclusters of one rule never have cores closer than the cutoff.  Repaired finding C03-K7
+   merge_scan_adjacent_only.  merge_over_origin on a circular record, the clusters of one rule each carried with its
+   core extended by the rule's cutoff (ext_ok: what merge_over_origin pairs them with): whenever it returns, the
+   clusters it returns are again carried with their cutoff-extended cores (kept) and for EVERY two of them, x before
+   y in the returned order, the core of y does not overlap the cutoff-extended core of x - all pairs, not only
+   neighbours in the order of the starts of the extended cores.  (Total correctness - that merge_pair does not raise -
+   and the reading of "does not overlap the extension" as "at least the cutoff apart on the ring" for arbitrary core
+   shapes are not part of the statement; for one-part cores see C03_merge_far_apart.) *)
+Theorem C03_merge_ring_separated : forall N rules key group res0,
+  Forall (ext_ok N true rules) group -> merge_group N true rules key group = Ok res0 ->
+  exists kept, res0 = map fst kept /\ Forall (ext_ok N true rules) kept /\ fwd_apart kept /\
+    forall l1 x l2 y l3, kept = l1 ++ x :: l2 ++ y :: l3 -> overlap (p_core (fst y)) (snd x) = false.
+Proof. intros N rules key group res0. exact (merge_group_separated N true rules key group res0 eq_refl). Qed.
+Print Assumptions C03_merge_ring_separated.
+
+(* the second pass in closed form: it stops exactly when no pair is left, and one round merges the first pair
+   (i < j, lexicographic order) whose later core overlaps the earlier extended core into position i *)
+Theorem C03_merge_ring_round : forall N circular rules l,
+  (ring_merge_once N circular rules l = Ok None <-> fwd_apart l) /\
+  (forall l', ring_merge_once N circular rules l = Ok (Some l') ->
+     exists pre x b y a m ext, l = pre ++ x :: b ++ y :: a /\ l' = pre ++ (m, ext) :: b ++ a /\
+       overlap (p_core (fst y)) (snd x) = true /\ merge_pair N circular rules (fst x) (fst y) = Ok m /\
+       extend_location (p_core m) (r_cut (nth_rule rules (p_rule m))) N circular = Ok ext).
+Proof. intros N circular rules l. split; [apply ring_once_none|apply ring_once_some]. Qed.
+Print Assumptions C03_merge_ring_round.
+
+(* the witness of the finding (regression): the pipeline used to return two protoclusters of rule 0 whose cores shared
+   gene 3; it returns one protocluster g2..g0 over the origin (and the lone g1) *)
+Theorem C03_merge_scan_repaired :
+  pipeline 10000 true [(0, [mkPart 50 150 1]); (1, [mkPart 5000 5100 1]); (2, [mkPart 7900 8000 1]); (3, [mkPart 8450 8550 1]);
+                       (4, [mkPart 9000 9100 1])]
+           [(0, [(0, 0)]); (1, [(0, 0)]); (2, [(0, 0)]); (3, [(1, 0)]); (4, [(0, 0)])]
+           [mkRule 1000 0 (C01.Model.Single false 0) (Some (C01.Model.Single false 1)) []] true
+  = Ok [(0, span2 10000 7900 150, span2 10000 7900 150); (0, [mkPart 5000 5100 1], [mkPart 5000 5100 1])].
+Proof. exact merge_scan_repaired. Qed.
+Print Assumptions C03_merge_scan_repaired.
+
+(* the witness of C03_merge_scan_repaired read from an origin 3000 bases further on: the same protocluster for
+   the four genes near each other (and one for the lone gene) - the result no longer depends on where the origin lies *)
 Example C03_merge_scan_rotated :
   pipeline 10000 true [(2, [mkPart 900 1000 1]); (3, [mkPart 1450 1550 1]); (4, [mkPart 2000 2100 1]); (0, [mkPart 3050 3150 1]);
                        (1, [mkPart 8000 8100 1])]
